@@ -1,8 +1,10 @@
 mod checks;
 mod codecs;
 mod engine;
+mod httpdrv;
 mod models;
 mod udpdrv;
+mod wsdrv;
 
 use engine::{Ctx, Tier};
 
@@ -36,6 +38,9 @@ fn table() -> Vec<Entry> {
         entry!("C01", c01, "exploration"),
         entry!("C02", c02, "exploration"),
         entry!("C05", c05, "exploration"),
+        entry!("C07", c07, "exploration"),
+        entry!("C08", c08, "exploration"),
+        entry!("C09", c09, "exploration"),
         entry!("C13", c13, "exploration"),
     ]
 }
